@@ -297,7 +297,8 @@ func (e *Exec) fieldAddr(st *State, x Val, styp types.Type, fidx int) Val {
 		}
 		panic("fieldAddr on scalar pointer")
 	}
-	if isStructT(ft) || memArrayT(ft) {
+	if isStructT(ft) || isArrayT(ft) {
+		// embedded structs and arrays (of scalars, structs or arrays) are sub-objects
 		return Val{T: e.sub(x.T, fidx)}
 	}
 	return Val{P: &Ptr{kind: pField, obj: x.T, styp: styp, fidx: fidx}}
